@@ -98,7 +98,8 @@ fn main() {
             let lo: usize = args[3].parse().unwrap_or(0);
             let hi: usize = args[4].parse().unwrap_or(0);
             let no_a = args.get(5).map(|s| s == "no-a").unwrap_or(false);
-            std::process::exit(iso::child(&args[2].to_uppercase(), lo, hi, no_a));
+            let deep = args.get(6).map(|s| s == "deep").unwrap_or(false);
+            std::process::exit(iso::child(&args[2].to_uppercase(), lo, hi, no_a, deep));
         }
         "replay" => {
             if args.len() < 3 {
